@@ -102,7 +102,7 @@ fn c14_transmit_cycle() {
     let now = vk_any_instant();
     m.state.last_global_control = Some(now);
     let mut buf = [0u8; 256];
-    let r = m.transmit_telegram(now, &fdl, crate::fdl::TelegramTx::new(&mut buf), crate::fdl::HighPrioOnly::No);
+    let r = m.transmit_telegram(now, &fdl, crate::fdl::TelegramTx::new(&mut buf), vk_any_hp());
     let (asked, n, ok_at, nev) = unsafe { (VK_ASKED, VK_NASKED, VK_OK_AT, VK_EVENTS) };
     // slots asked: strictly increasing, all occupied, all >= start, none skipped
     let mut expect = start as usize;
@@ -202,7 +202,7 @@ fn c14_transmit_after_completed() {
     let now = vk_any_instant();
     m.state.last_global_control = Some(now);
     let mut buf = [0u8; 256];
-    let r = m.transmit_telegram(now, &fdl, crate::fdl::TelegramTx::new(&mut buf), crate::fdl::HighPrioOnly::No);
+    let r = m.transmit_telegram(now, &fdl, crate::fdl::TelegramTx::new(&mut buf), vk_any_hp());
     assert!(r.is_none() && unsafe { VK_NASKED } == 0);
     assert!(m.state.cycle_state == CycleState::DataExchange(0));
     assert!(m.take_last_events() == DpEvents::default());
